@@ -15,8 +15,14 @@ CLAIMS = {
             'technique': 'typestate must-pass-through walk, decision-table agreement between sibling implementations, guard-chain queries'},
     'C05': {'text': IEF + ' assertDataFramesEqual/assertDataFrameCorrect/assertOnDiskDataFrameCorrect/check_dataframe.',
             'technique': 'call-graph reachability + definite-assignment walk + arity check (AST)'},
-    'C08': {'text': IEF + ' discover_db_table/verify_db_table.',
-            'technique': 'call-graph reachability + definite-assignment walk + arity check (AST)'},
+    'C07': {'text': 'discovery thresholds admit exactly the documented sets (THRESH); the discovered sign class is the strongest that holds '
+                    'over the six orderings of (min, max, 0) (STRONG); min is computed with min/MIN and max with max/MAX everywhere, no '
+                    'query truncates (AGG); nothing but the type is emitted for absent data (ABSENT).',
+            'technique': 'guard-chain queries, finite-domain (sign) abstract evaluation of the decision chains, call-graph closure over SQL literals'},
+    'C08': {'text': 'SQL quoting discipline per template slot on the SQLite path and delimiter doubling in the quoting helper (SQLQ); '
+                    'empty-join guard (EMPTYJOIN); closed-table lookups (TOTAL); unguarded parsing of stored text (EXC); REGEXP callback '
+                    'flags (REXFLAGS); SQL aggregates (AGG); ' + IEF + ' discover_db_table/verify_db_table.',
+            'technique': 'template-slot taint classification (def-use), guard chains, call-graph reachability, definite-assignment walk'},
     'C10': {'text': 'every effect on a reference path is under the true arm of _should_regenerate(own kind) on every call chain '
                     '(GUARD, KINDFWD); normal-mode effects write only under tmp_dir (NOWRITE); only set_regeneration stores into the '
                     'table and only command-line parsers call it (WHOSETS); flag spellings and their wiring (FLAGS); writer/reader '
@@ -31,9 +37,11 @@ CLAIMS = {
     'C17': {'text': IEF + ' the three Pandas front-end methods (discover/verify/detect).',
             'technique': 'call-graph reachability + definite-assignment walk + arity check (AST)'},
     'C01': {
-        'text': 'internal-error freedom (undefined names, unbound locals, unbindable calls, None iteration) of every '
-                'function reachable from discover_df/verify_df/detect_df/to_json/load.',
-        'technique': 'call-graph reachability + path-sensitive definite-assignment walk (AST), compiler oracle',
+        'text': 'each emitted constraint comes from the statistic its verifier reads and the default arm holds at equality; sign closure '
+                'over the six orderings (CLOSE); one cache key / one classifier / one flag set on both sides (SHARED); no store into '
+                'the verified frame from a verifier (CACHE); date writer language is included in the reader regexes, group counts, '
+                'integer-only conversion (DATELANG); ' + IEF + ' discover_df/verify_df/detect_df/to_json/load.',
+        'technique': 'def-use closures between sibling implementations, finite-domain evaluation, regular-language inclusion on extracted regex constants, definite-assignment walk',
     },
 }
 
